@@ -40,7 +40,9 @@ class SortFunction(Sorter):
 def sorter_for(sort,  # type: Sort
                ):  # type (...) -> Sorter
 
-    path_ranking = lambda x: x.original_location + str(x.deletion_date)
+    # a pair, not the concatenation: '/a/foo.txt2020-...' and '/a/foo/x2020-...'
+    # sort before '/a/foo2020-...' ('.' and '/' come before the digits)
+    path_ranking = lambda x: (x.original_location, str(x.deletion_date))
     # entries without a (valid) DeletionDate have deletion_date None, which
     # cannot be compared with a datetime: list them first
     date_rankking = lambda x: (x.deletion_date is not None,
